@@ -23,8 +23,8 @@ fn range(ty: Option<&str>, tag: &str, extra: &str) -> Val {
     })
 }
 
-pub const KINDS: [&str; 19] = [
-    "string", "var_x", "var_y_number", "var_x_date", "comp_b", "comp_i_var_x", "comp_b_var_y", "comp_b_comp_i_var_w", "comp_b_twice", "range_i32", "range_u8", "range_f32", "plural", "fk_rename_plural", "fk_rename_range", "fk_lit_count", "null", "number", "bool",
+pub const KINDS: [&str; 22] = [
+    "plural_plain", "plural_other_plain", "range_plain", "string", "var_x", "var_y_number", "var_x_date", "comp_b", "comp_i_var_x", "comp_b_var_y", "comp_b_comp_i_var_w", "comp_b_twice", "range_i32", "range_u8", "range_f32", "plural", "fk_rename_plural", "fk_rename_range", "fk_lit_count", "null", "number", "bool",
 ];
 
 /// entries for key `k` of kind `kind` (plural adds two entries)
@@ -45,6 +45,10 @@ pub fn kind_entries(kind: &str, tag: &str) -> Vec<(String, Val)> {
         "range_u8" => one(range(Some("u8"), tag, "z")),
         "range_f32" => one(range(Some("f32"), tag, "w")),
         "plural" => vec![("k_one".into(), s(vec![text(&format!("[{tag}.one]")), var("v")])), ("k_other".into(), s(vec![text(&format!("[{tag}.other]")), var("count")]))],
+        // count-driven values whose texts hold no variable at all: the count is still a required argument
+        "plural_plain" => vec![("k_one".into(), st(&format!("[{tag}.one]"))), ("k_other".into(), st(&format!("[{tag}.other]")))],
+        "plural_other_plain" => vec![("k_one".into(), s(vec![text(&format!("[{tag}.one]")), var("count")])), ("k_other".into(), st(&format!("[{tag}.other]")))],
+        "range_plain" => one(Val::Range(RangeDecl { ty: Some("u8".into()), branches: vec![rb(st(&format!("[{tag}.0]")), vec![CountSpec::UInt(0)]), rb(st(&format!("[{tag}.fb]")), vec![])] })),
         "fk_rename_plural" => one(s(vec![fk_args("pl", vec![("count", FkArg::Str(vec![var("n")]))])])),
         "fk_rename_range" => one(s(vec![fk_args("rg", vec![("count", FkArg::Str(vec![var("count")])), ("q", FkArg::Str(vec![text("Q")]))])])),
         "fk_lit_count" => one(s(vec![fk_args("rg", vec![("count", FkArg::UInt(0))])])),
